@@ -21,7 +21,7 @@ LEVEL_TEXT = ("Sequences of up to 40 actions drive one bridge object through sta
               "returned. 'Never' is checked up to the point where the port is provably released. Sequences are sampled and shrunk.")
 RULE = ("case = number of ports + step list; non-trivial = contains a restart, a failed start on a port index > 0, or a send around "
         "a stop; distinct by (ports, steps)."
-        ' The ports are handed to the bridge as a list or a tuple. Further actions: idle (1 s .. 25 h of event-loop time under the harness-owned loop clock), new_loop (the event loop is closed and a new one made while the bridge is stopped; the bridge object is kept), a second bridge object started on the same ports (rival_start), start with the file-descriptor limit lowered so that a later port fails with EMFILE (start_fd_exhausted), 0..4 loop turns between queued datagrams and stop(), context exit with an exception.')
+        ' The ports are handed to the bridge as a list or a tuple. Further actions: idle (1 s .. 25 h of event-loop time under the harness-owned loop clock), new_loop (the event loop is closed and a new one made while the bridge is stopped; the bridge object is kept), a second bridge object started on the same ports (rival_start), start with the file-descriptor limit lowered so that a later port fails with EMFILE (start_fd_exhausted), 0..4 loop turns between queued datagrams and stop(), context exit with an exception (RuntimeError, OSError, TimeoutError, and the BaseExceptions CancelledError and KeyboardInterrupt).')
 ASSUMPTIONS = [
     "start() while already running is undocumented and not generated",
     "a port is 'released' when a UDP socket without SO_REUSEADDR can bind 0.0.0.0:port after two event-loop cycles",
@@ -122,7 +122,8 @@ class BridgeSys:
             try:
                 if a == "leave":
                     if step.get("exc"):
-                        err = RuntimeError("body failed") if step["exc"] == "RuntimeError" else OSError("body failed")
+                        err = {"RuntimeError": RuntimeError, "OSError": OSError, "CancelledError": asyncio.CancelledError,
+                               "TimeoutError": TimeoutError, "KeyboardInterrupt": KeyboardInterrupt}[step["exc"]]("body failed")
                         swallowed = await self.bridge.__aexit__(type(err), err, None)
                         if swallowed:
                             self.fail("context-swallows-body-exception", "falsy __aexit__ result", repr(swallowed))
@@ -364,7 +365,8 @@ def machine_factory(nports):
             def start(self, how):
                 self.do({"action": how})
 
-            @rule(how=st.sampled_from(["stop", "stop", "leave", "leave-exc-RuntimeError", "leave-exc-OSError"]))
+            @rule(how=st.sampled_from(["stop", "stop", "leave", "leave-exc-RuntimeError", "leave-exc-OSError",
+                                       "leave-exc-CancelledError", "leave-exc-TimeoutError", "leave-exc-KeyboardInterrupt"]))
             def stop(self, how):
                 if how.startswith("leave-exc-"):
                     self.do({"action": "leave", "exc": how[10:]})
